@@ -126,6 +126,17 @@ Fixpoint read_all (sizes : list nat) (s : ws) (o : oracle) : bytes * ending * ws
       end
   end.
 
+(* Every accepted connection gets a wsConn of its own, with no current message reader:
+   handler() builds &wsConn{Conn: ..., c: c}, so ws.r == nil. *)
+Definition ws_init (ms : list msg) : ws := mkWs None ms.
+
+(* a listener serving connections one after the other; a connection = its messages, the read
+   sizes of its consumer and the chunking of its message readers *)
+Definition conn_in : Type := (list msg * list nat * oracle)%type.
+Definition serve1 (c : conn_in) : bytes * ending :=
+  let '(ms, sizes, o) := c in let '(d, e, _) := read_all sizes (ws_init ms) o in (d, e).
+Definition serve (cs : list conn_in) : list (bytes * ending) := map serve1 cs.
+
 (* wsConn.Write: one binary message per call *)
 Definition ws_write (p : bytes) : msg := (2, p).
 
@@ -171,7 +182,7 @@ Definition reads_for (m : msg) : nat := N.to_nat (len_acc (snd m) 0 / 2048 + 2).
 
 Definition model_delivery (ms : list msg) : bytes * ending :=
   let sizes := flat_map (fun m => repeat 2048%nat (reads_for m)) ms ++ [2048%nat] in
-  let '(d, e, _) := read_all sizes (mkWs None ms) [] in (d, e).
+  let '(d, e, _) := read_all sizes (ws_init ms) [] in (d, e).
 
 (* does anything follow the first non-binary message? *)
 Fixpoint sent_after_nonbinary (ms : list msg) : bool :=
@@ -208,12 +219,28 @@ Definition ws_check (ms : list msg) (tcp_in : bytes) (out_ws : list msg) (out_tc
        | _, _ => verdict 2 tg nontriv []
        end.
 
+(* cases that follow a history of earlier connections on the same listener are tagged apart *)
+Definition retag_hist (v : val) : val :=
+  match v with
+  | VL (VN code :: VB t :: rest) => VL (VN code :: VB (tag "after-aborted-" ++ t) :: rest)
+  | _ => v
+  end.
+
 (* ENGINE ws IO.WsFrame.ws_engine *)
 Definition ws_engine (c : val) : val :=
   match c with
   | VL [VL ms; VB tcp_in; VL outws; VB out_tcp; VB obs_ws; VB obs_tcp; VN ended] =>
       match map_opt parse_msg ms, map_opt parse_msg outws with
       | Some m, Some o => ws_check m tcp_in o out_tcp obs_ws obs_tcp (negb (ended =? 0))
+      | _, _ => bad_case
+      end
+  (* (6 history case...): the same observation made after [history] = earlier websocket connections
+     (each a list of messages) that ended while the broker was partway through a message.  The
+     verdict is that of the connection's own bytes, judged from ws_init: what other connections
+     sent is not an input. *)
+  | VL [VN 6; VL _; VL ms; VB tcp_in; VL outws; VB out_tcp; VB obs_ws; VB obs_tcp; VN ended] =>
+      match map_opt parse_msg ms, map_opt parse_msg outws with
+      | Some m, Some o => retag_hist (ws_check m tcp_in o out_tcp obs_ws obs_tcp (negb (ended =? 0)))
       | _, _ => bad_case
       end
   | _ => bad_case
